@@ -58,7 +58,7 @@ type c20Case struct {
 	Scripts [][]c20Op `json:"scripts"`
 }
 
-var c20Kinds = []string{"ngap-enc", "ngap-dec", "nas-plain", "protect", "unprotect", "encrypt", "mac", "derive", "ngap-enc-big", "ngap-dec-big", "alg-direct", "ngap-dec-lists", "aes-burst", "ngap-dec-later"}
+var c20Kinds = []string{"ngap-enc", "ngap-dec", "nas-plain", "protect", "unprotect", "encrypt", "mac", "derive", "ngap-enc-big", "ngap-dec-big", "alg-direct", "ngap-dec-lists", "aes-burst", "ngap-dec-later", "ngap-dec-cut", "tg-build", "ue-burst"}
 
 func genC20(t *rapid.T) c20Case {
 	g := rapid.SampledFrom([]int{2, 2, 4, 8, 8, 16, 64}).Draw(t, "goroutines")
@@ -76,7 +76,7 @@ func genC20(t *rapid.T) c20Case {
 	if rapid.IntRange(0, 5).Draw(t, "storm") == 0 {
 		// every goroutine does the same kind of work for the whole case (64 decoders of list-heavy messages at once,
 		// 64 direct cipher calls at once, ...): load that adds up across goroutines
-		storm = rapid.SampledFrom([]string{"ngap-dec-lists", "ngap-dec-lists", "alg-direct", "ngap-dec", "ngap-enc", "aes-burst", "aes-burst", "derive", "ngap-dec-later", "ngap-dec-later"}).Draw(t, "storm_kind")
+		storm = rapid.SampledFrom([]string{"ngap-dec-lists", "ngap-dec-lists", "alg-direct", "ngap-dec", "ngap-enc", "aes-burst", "aes-burst", "derive", "ngap-dec-later", "ngap-dec-later", "ngap-dec-cut", "ngap-dec-cut", "tg-build", "tg-build", "ue-burst", "ue-burst", "ue-burst"}).Draw(t, "storm_kind")
 		g = 64
 		maxOps = 6
 	}
@@ -206,6 +206,74 @@ func runOp(u *ueState, op c20Op) (res string) {
 			return "decoded-value-differs"
 		}
 		return "ok:" + hex.EncodeToString(rb[:min(len(rb), 16)])
+	case "ngap-dec-cut":
+		// a message that arrives cut short (a peer that died mid-send, a reassembly gone wrong): the decoder's refusal —
+		// error value and text — is a result like any other and belongs to the call that produced it
+		pdu := pduFor(op.Seed)
+		rb, _, err := refper.Encode(pdu, gen.PDUTag)
+		if err != nil || len(rb) >= 16384 || len(rb) < 4 {
+			return "skip"
+		}
+		out := ""
+		var kept []error
+		x := &sm{x: op.Seed ^ 0xc07}
+		for rep := 0; rep < 4; rep++ {
+			cut := 1 + int(x.next()%uint64(len(rb)-1))
+			if rep == 0 && len(rb) > 8 {
+				cut = len(rb) - 1 - int(x.next()%4)
+			}
+			in := append([]byte{}, rb[:cut]...)
+			switch {
+			case rep == 1:
+				// ... in the first octets: procedure code, criticality, the length of the value
+				in = append([]byte{}, rb[:1+int(x.next()%4)]...)
+			case rep >= 2 && rb[3] < 128 && len(rb) == 4+int(rb[3]) && rb[3] > 2:
+				// ... or a sender that closed the message early: the outer length agrees with what arrives, the content
+				// ends at some field of some information element
+				l := 1 + int(x.next()%uint64(rb[3]-1))
+				in = append([]byte{}, rb[:4+l]...)
+				in[3] = byte(l)
+				cut = -l
+			}
+			_, derr := ngap.Decoder(in)
+			if derr == nil {
+				out += fmt.Sprintf("|%d:accepted", cut)
+				continue
+			}
+			kept = append(kept, derr)
+			out += fmt.Sprintf("|%d:%s", cut, derr.Error())
+		}
+		// the errors read the same afterwards as when they were returned
+		for _, e := range kept {
+			out += "|" + e.Error()
+		}
+		return out
+	case "tg-build":
+		// the messages a gNB sends for a UE, made by the builders the emulator uses (build + encode in one call)
+		amfID, ranID := int64(r.next()%(1<<40)), int64(r.next()%(1<<32))
+		var b []byte
+		var err error
+		switch op.Seed % 9 {
+		case 0:
+			b, err = tglib.GetInitialUEMessage(ranID, plainNAS(r, op.Len%200+1), "")
+		case 1:
+			b, err = tglib.GetUplinkNASTransport(amfID, ranID, plainNAS(r, op.Len))
+		case 2:
+			b, err = tglib.GetInitialContextSetupResponse(amfID, ranID)
+		case 3:
+			b, err = tglib.GetPDUSessionResourceSetupResponse(amfID, ranID, int64(1+r.next()%15), fmt.Sprintf("10.%d.%d.%d", r.next()%256, r.next()%256, r.next()%256))
+		case 4:
+			b, err = tglib.GetUEContextReleaseComplete(amfID, ranID, []int64{int64(1 + r.next()%15)})
+		case 5:
+			b, err = tglib.GetUEContextReleaseRequest(amfID, ranID, []int64{int64(1 + r.next()%15)})
+		case 6:
+			b, err = tglib.GetPDUSessionResourceReleaseResponse(amfID, ranID, int64(1+r.next()%15))
+		case 7:
+			b, err = tglib.GetHandoverNotify(amfID, ranID)
+		default:
+			b, err = tglib.GetPathSwitchRequest(amfID, ranID)
+		}
+		return fmt.Sprintf("%x|%v", b, err)
 	case "ngap-enc-big", "ngap-dec-big":
 		// DOWNLINK NAS TRANSPORT whose NAS-PDU has op.Len octets (above 16K the open types are fragmented)
 		var pdu ngapType.NGAPPDU
@@ -451,6 +519,38 @@ func runOp(u *ueState, op c20Op) (res string) {
 				b2, _, e2 := refper.Encode(*d, gen.PDUTag)
 				if e2 != nil || !bytes.Equal(b2, rb) {
 					return "decoded-value-differs"
+				}
+			}
+		}
+		return "ok"
+	case "ue-burst":
+		// what one UE does for minutes on end: message after message under ITS OWN two keys (the same keys call after
+		// call, unlike aes-burst), while the other goroutines do the same under theirs
+		for i := 0; i < 64; i++ {
+			cnt, dir := uint32(r.next()), uint8(r.next()%2)
+			msg := r.bytes(1 + int(r.next()%48))
+			switch (op.Alg + i/16) % 4 {
+			case 0:
+				buf := append([]byte{}, msg...)
+				if err := security.NASEncrypt(2, u.ue.KnasEnc, cnt, 1, dir, buf); err != nil || !bytes.Equal(buf, refcrypto.EEA2(u.ue.KnasEnc, cnt, 1, uint32(dir), msg)) {
+					return fmt.Sprintf("WRONG-CIPHERTEXT NEA2 (UE burst, call %d) err=%v", i, err)
+				}
+			case 1:
+				mac, err := security.NASMacCalculate(2, u.ue.KnasInt, cnt, 1, dir, msg)
+				want := refcrypto.EIA2(u.ue.KnasInt, cnt, 1, uint32(dir), msg)
+				if err != nil || !bytes.Equal(mac, want[:]) {
+					return fmt.Sprintf("WRONG-MAC NIA2 (UE burst, call %d) err=%v", i, err)
+				}
+			case 2:
+				buf := append([]byte{}, msg...)
+				if err := security.NASEncrypt(1, u.ue.KnasEnc, cnt, 1, dir, buf); err != nil || !bytes.Equal(buf, refcrypto.EEA1(u.ue.KnasEnc, cnt, 1, uint32(dir), msg, 8*len(msg))) {
+					return fmt.Sprintf("WRONG-CIPHERTEXT NEA1 (UE burst, call %d) err=%v", i, err)
+				}
+			default:
+				mac, err := security.NASMacCalculate(1, u.ue.KnasInt, cnt, 1, dir, msg)
+				want := refcrypto.EIA1(u.ue.KnasInt, cnt, 1, uint32(dir), msg, 8*len(msg))
+				if err != nil || !bytes.Equal(mac, want[:]) {
+					return fmt.Sprintf("WRONG-MAC NIA1 (UE burst, call %d) err=%v", i, err)
 				}
 			}
 		}
